@@ -208,13 +208,15 @@ P("C02", [("V23", None), ("V3", None), ("V17", None), ("V28", None), ("V18", Non
   "closures over &mut self), and that the answer is the one the logical meaning dictates (C01).",
   "contract-based deductive verification: Verus on mechanically extracted function text, ghost history in the abstract search graph, in-place loop invariant")
 
-P("C10", [("V24", None), ("V18", None)],
+P("C10", [("V24", None), ("V18", None), ("V23", None)],
   "proof",
   "Partial (the recursive solver's cache discipline named in the anchors): Verus proves on the verbatim text of RecursiveContext::solve_goal that a cache hit returns the cached answer and changes nothing (V18); "
   "that for a new goal the answer returned is what the goal's last fixed-point iteration produced - the same whether or not a cache is configured; that the goal's node and everything above it are made permanent "
   "in ONE move_to_cache batch headed by the goal and carrying the returned answer exactly when the iteration's minimums do not reach below the goal's own depth-first number (its SCC is complete) and the caller has not asked to stop, are "
   "discarded by rollback_to instead when caching is disabled or the solve was interrupted, and that otherwise NOTHING is made permanent: the node stays in the graph, off the stack, with the returned answer and with its links recorded (V24), "
-  "so that every later hit lowers its caller's minimums (V18, clause B). Unbounded.",
+  "so that every later hit lowers its caller's minimums (V18, clause B); and that when the fixed-point loop stops although the goal's answer still CHANGED in its last iteration "
+  "(allowed once the answer is ambiguous) nothing above the goal's own node is left in the graph, so no result computed against the superseded answer can be made permanent (V23, clause G - the contract "
+  "that exposed the defect repaired by c7cd17c, DESIGN section 6g). Unbounded.",
   "Not reached: that answers cached this way equal what a fresh solver computes (needs soundness of the whole search, C01), the SLG forest's table reuse (get_or_create_table_for_ucanonical_goal: FxHashMap + "
   "state machine), the bodies of SearchGraph::rollback_to / move_to_cache (hash-map retain with closures; their effect on the node sequence is an assumed contract). The known finding of C11 (an INTERRUPTED "
   "answer is cached too) is reported under C11, not here.",
